@@ -18,7 +18,7 @@ import (
 func init() { register("C10", checkC10) }
 
 func checkC10(c *core.Ctx) {
-	c.Explainf("C10 (decided clauses, go/cfg path rules on parse.go and tokenize.go). R1: in ReadFile every path from a false result of tr.Next() to a return whose error is nil passes a call of tr.Err() whose result is returned — Next() is false without an error only at a clean EOF, so success implies the whole input was tokenized; expectNext/expectAnyOfNext test tr.Err() right after Next(). R2: a failed Next() invalidates the current token on every failing return, and UnNext() is only called while the current token is valid (typestate over each function of parse.go) — otherwise the previous token is delivered again (an unterminated union is accepted because the branch's '}' is taken for the union's). R3: every unreadByte() is dominated by a successful byte read whose error was tested; in Next() a reader failure in findFirst returns before unreadByte(). R4: the explicit panic of decodeIntegerType is fenced: its case constants cover every key of uintTypes and intTypes, the only names readEnum lets through. R5: no inner node of the token tree built by newTokenTree has a successor set whose first sorted label is the synthetic \"number\" (the recovery path indexes successors by that label's first byte). R6: every tokenizer function that reads the underlying reader records a failing read as an error and adds the end-of-input sentinel only for io.EOF. R7: a block comment token is long enough for readBlockComment's slice. R8: every index into a slice or string (and every slice-to-array conversion) in parse.go, parse_expr.go, eval_expr.go, tokenize.go and token_tree.go is proven in bounds by one of the enumerated idioms — a dominating `if len(x)… {return}`, an enclosing if/for condition, the arity of the expectNext call that produced the slice (expectNext's own contract is checked), a range over a same-length make, a counting fill, or, for a parameter, the same proof at every call site; token counts and token text are input-controlled, so an unproven index is an input that panics. R9: every non-range loop of the parser and tokenizer takes at least one token or byte from the input on balance on its cheapest cycle (consuming calls minus UnNext/unread calls, Bellman-Ford over the loop's sub-graph of the go/cfg graph, callee summaries over successful returns), or advances a counter its condition bounds; with a finite input and a reader that eventually reports EOF this bounds the iterations. R10: the tokenizer's one-token push-back flag (keepNextToken) is written only by the tokenizer itself and at one confirmed parser site (frozen table with reasons): clearing it elsewhere throws away a token a callee pushed back and the definition it starts is skipped silently. R11: the reader that reaches the tokenizer's buffer is the caller's own, or bufio around it — never io.LimitReader / io.LimitedReader / io.SectionReader, which end the input with a clean EOF at their limit and drop the rest of the schema without an error. NOT decided: termination as such (a reader that never ends, recursion depth); slice expressions x[a:b] other than those of R7; nil-map and nil-pointer panics.")
+	c.Explainf("C10 (decided clauses, go/cfg path rules on parse.go and tokenize.go). R1: in ReadFile every path from a false result of tr.Next() to a return whose error is nil passes a call of tr.Err() whose result is returned — Next() is false without an error only at a clean EOF, so success implies the whole input was tokenized; expectNext/expectAnyOfNext test tr.Err() right after Next(). R2: a failed Next() invalidates the current token on every failing return, and UnNext() is only called while the current token is valid (typestate over each function of parse.go) — otherwise the previous token is delivered again (an unterminated union is accepted because the branch's '}' is taken for the union's). R3: every unreadByte() is dominated by a successful byte read whose error was tested; in Next() a reader failure in findFirst returns before unreadByte(). R4: the explicit panic of decodeIntegerType is fenced: its case constants cover every key of uintTypes and intTypes, the only names readEnum lets through. R5: no inner node of the token tree built by newTokenTree has a successor set whose first sorted label is the synthetic \"number\" (the recovery path indexes successors by that label's first byte). R6: every tokenizer function that reads the underlying reader records a failing read as an error and adds the end-of-input sentinel only for io.EOF. R7: a block comment token is long enough for readBlockComment's slice. R8: every index into a slice or string (and every slice-to-array conversion) in parse.go, parse_expr.go, eval_expr.go, tokenize.go and token_tree.go is proven in bounds by one of the enumerated idioms — a dominating `if len(x)… {return}`, an enclosing if/for condition, the arity of the expectNext call that produced the slice (expectNext's own contract is checked), a range over a same-length make, a counting fill, or, for a parameter, the same proof at every call site; token counts and token text are input-controlled, so an unproven index is an input that panics. R9: every non-range loop of the parser and tokenizer takes at least one token or byte from the input on balance on its cheapest cycle (consuming calls minus UnNext/unread calls, Bellman-Ford over the loop's sub-graph of the go/cfg graph, callee summaries over successful returns), or advances a counter its condition bounds; with a finite input and a reader that eventually reports EOF this bounds the iterations. R10: the tokenizer's one-token push-back flag (keepNextToken) is written only by the tokenizer itself and at one confirmed parser site (frozen table with reasons): clearing it elsewhere throws away a token a callee pushed back and the definition it starts is skipped silently. R11: the reader that reaches the tokenizer's buffer is the caller's own, or bufio around it — never io.LimitReader / io.LimitedReader / io.SectionReader, which end the input with a clean EOF at their limit and drop the rest of the schema without an error. R12: every shift in the ReadFile path has a count that cannot be negative (a constant, an unsigned value, non-negative parts) or an earlier `if count < 0 { return … }`: Go panics on a negative shift count. NOT decided: termination as such (a reader that never ends, recursion depth); slice expressions x[a:b] other than those of R7; nil-map and nil-pointer panics.")
 	p := loadRepo(c)
 	if p == nil {
 		return
@@ -206,6 +206,7 @@ func checkC10(c *core.Ctx) {
 	// ---- R10
 	checkPushbackOwners(c, p)
 	checkWholeInput(c, p)
+	checkShiftCounts(c, p)
 	// ---- R8
 	checkParserBounds(c, p, "R8")
 	// ---- R9
@@ -1423,4 +1424,169 @@ func checkWholeInput(c *core.Ctx, p *load.Prog) {
 	}
 	c.Count("tokenizer_input_handoffs", n)
 	c.Floor("tokenizer_input_handoffs", 2)
+}
+
+// checkShiftCounts: R12. A Go shift whose count is a signed integer panics at
+// run time when the count is negative. In the files of the ReadFile path the
+// counts come from the schema text (`1 << -1` in a [flags] expression), so
+// every shift whose count is neither a constant, nor of an unsigned type, nor
+// built from non-negative parts (len, loop counters that start at a constant
+// >= 0 and are only incremented) needs an earlier `if count < 0 { return … }`
+// in the same function.
+func checkShiftCounts(c *core.Ctx, p *load.Prog) {
+	pkg := p.Bebop()
+	info := pkg.TypesInfo
+	signed := func(t types.Type) bool {
+		if t == nil {
+			return false
+		}
+		if tp, ok := t.(*types.TypeParam); ok {
+			// every type of the constraint's type set is signed?
+			iface, ok := tp.Constraint().Underlying().(*types.Interface)
+			if !ok {
+				return true
+			}
+			anySigned := false
+			for i := 0; i < iface.NumEmbeddeds(); i++ {
+				if u, ok := iface.EmbeddedType(i).(*types.Union); ok {
+					for j := 0; j < u.Len(); j++ {
+						if b, ok := u.Term(j).Type().Underlying().(*types.Basic); ok && b.Info()&types.IsInteger != 0 && b.Info()&types.IsUnsigned == 0 {
+							anySigned = true
+						}
+					}
+				} else if nt, ok := iface.EmbeddedType(i).(*types.Named); ok {
+					if ni, ok := nt.Underlying().(*types.Interface); ok {
+						for k := 0; k < ni.NumEmbeddeds(); k++ {
+							if u, ok := ni.EmbeddedType(k).(*types.Union); ok {
+								for j := 0; j < u.Len(); j++ {
+									if b, ok := u.Term(j).Type().Underlying().(*types.Basic); ok && b.Info()&types.IsInteger != 0 && b.Info()&types.IsUnsigned == 0 {
+										anySigned = true
+									}
+								}
+							}
+						}
+					}
+				}
+			}
+			return anySigned
+		}
+		b, ok := t.Underlying().(*types.Basic)
+		return ok && b.Info()&types.IsInteger != 0 && b.Info()&types.IsUnsigned == 0
+	}
+	n := 0
+	for _, fd := range funcsOfFiles(p, pkg, "parse.go", "parse_expr.go", "eval_expr.go", "tokenize.go", "token_tree.go") {
+		var nonNeg func(e ast.Expr, depth int) bool
+		nonNeg = func(e ast.Expr, depth int) bool {
+			e = ast.Unparen(e)
+			if v, ok := constInt(info, e); ok {
+				return v >= 0
+			}
+			if !signed(info.TypeOf(e)) {
+				return true
+			}
+			if depth > 3 {
+				return false
+			}
+			switch x := e.(type) {
+			case *ast.BinaryExpr:
+				if x.Op == token.ADD || x.Op == token.MUL {
+					return nonNeg(x.X, depth+1) && nonNeg(x.Y, depth+1)
+				}
+			case *ast.CallExpr:
+				if wire.Canon(x.Fun) == "len" || wire.Canon(x.Fun) == "cap" {
+					return true
+				}
+				if tv, ok := info.Types[x.Fun]; ok && tv.IsType() && len(x.Args) == 1 {
+					return nonNeg(x.Args[0], depth+1)
+				}
+			case *ast.Ident:
+				// a loop counter that starts at a constant >= 0 and is only incremented
+				o := info.ObjectOf(x)
+				okInit, okSteps := false, true
+				ast.Inspect(fd.Body, func(m ast.Node) bool {
+					switch y := m.(type) {
+					case *ast.AssignStmt:
+						for i, l := range y.Lhs {
+							if lid, ok := l.(*ast.Ident); ok && info.ObjectOf(lid) == o {
+								if y.Tok == token.DEFINE && i < len(y.Rhs) {
+									if v, ok := constInt(info, y.Rhs[i]); ok && v >= 0 {
+										okInit = true
+										continue
+									}
+								}
+								if y.Tok == token.ADD_ASSIGN {
+									if v, ok := constInt(info, y.Rhs[0]); ok && v >= 0 {
+										continue
+									}
+								}
+								okSteps = false
+							}
+						}
+					case *ast.IncDecStmt:
+						if lid, ok := y.X.(*ast.Ident); ok && info.ObjectOf(lid) == o && y.Tok != token.INC {
+							okSteps = false
+						}
+					}
+					return true
+				})
+				return okInit && okSteps
+			}
+			return false
+		}
+		guarded := func(count ast.Expr, at token.Pos) bool {
+			want := wire.Canon(count)
+			found := false
+			ast.Inspect(fd.Body, func(m ast.Node) bool {
+				ifs, ok := m.(*ast.IfStmt)
+				if !ok || ifs.Pos() >= at || !endsInReturn(ifs.Body) {
+					return true
+				}
+				ast.Inspect(ifs.Cond, func(k ast.Node) bool {
+					be, ok := k.(*ast.BinaryExpr)
+					if !ok {
+						return true
+					}
+					if be.Op == token.LSS && wire.Canon(be.X) == want {
+						if v, ok := constInt(info, be.Y); ok && v == 0 {
+							found = true
+						}
+					}
+					if be.Op == token.GTR && wire.Canon(be.Y) == want {
+						if v, ok := constInt(info, be.X); ok && v == 0 {
+							found = true
+						}
+					}
+					return true
+				})
+				return true
+			})
+			return found
+		}
+		k := 0
+		ast.Inspect(fd.Body, func(m ast.Node) bool {
+			var count ast.Expr
+			var pos token.Pos
+			switch x := m.(type) {
+			case *ast.BinaryExpr:
+				if x.Op == token.SHL || x.Op == token.SHR {
+					count, pos = x.Y, x.Pos()
+				}
+			case *ast.AssignStmt:
+				if (x.Tok == token.SHL_ASSIGN || x.Tok == token.SHR_ASSIGN) && len(x.Rhs) == 1 {
+					count, pos = x.Rhs[0], x.Pos()
+				}
+			}
+			if count == nil {
+				return true
+			}
+			n++
+			k++
+			ok := nonNeg(count, 0) || guarded(count, pos)
+			c.Check("R12", fmt.Sprintf("%s: the count of shift #%d (%s) cannot be negative", fd.Name.Name, k, wire.Canon(count)), p.Pos(pos), ok,
+				"the count "+wire.Canon(count)+" is a signed value taken from the schema text and no earlier `if "+wire.Canon(count)+" < 0 { return … }` excludes a negative one: Go panics on a negative shift count, so `A = 1 << -1;` in a [flags] enum makes ReadFile panic instead of returning an error")
+			return true
+		})
+	}
+	c.Count("shift_expressions", n)
+	c.Floor("shift_expressions", 3)
 }
